@@ -385,6 +385,42 @@ def _tuplify(p):
     return out
 
 
+def grid_cases():
+    """Deterministic grid, run first on every run whatever the seed: every wrapper kind (and a few stacks) x
+    fixed bodies x fixed drive sequences, one or two instances per directed situation (first op throw / close /
+    non-None send, handler hit, GeneratorExit with and without awaited clean-up, falsy exception, OOBData through
+    a monitor, exception instance sent as a value, KeyboardInterrupt / SystemExit, Future held and completed before
+    the await, athrow / aclose)."""
+    bodies = [
+        [("try", [("tok", 1)], [("E1", [("tok", 2)])], [("log", 1)]), ("ret", 5)],
+        [("try", [("tok", 1)], [("GenExit", [("tok", 2)])], []), ("ret", 5)],
+        [("try", [("call", [("tok", 1), ("ret", 7)])], [("BaseException", [("log", 2), ("reraise",)])], [("tok", 3)])],
+        [("try", [("tok", 1)], [("BaseException", [("log", 1), ("tok", 2)])], []), ("ret", 5)],
+        [("tok", 1), ("raise", "OOBData")],
+        [("fut", 1), ("tok", 2), ("ret", 5)],
+        [("try", [("tok", 1)], [], [("bare",)])],
+        [("raise", "FE")],
+        [("try", [("tok", 1)], [("Exception", [("log", 1)])], []), ("ret", 7)],
+    ]
+    seqs = [["t:E1"], ["c"], ["s:3"], ["s:0", "t:E1", "s:3"], ["s:0", "t:GenExit"], ["s:0", "c"], ["s:0", "t:FE"],
+            ["s:0", "t:OOBData"], ["s:0", "s:9001"], ["s:0", "t:KI", "s:3"], ["s:0", "t:SE"],
+            ["s:0", "t:Cancelled", "c"], ["s:0", "s:0", "s:0"], ["s:0", "t:E1", "t:GenExit"]]
+    stacks = [[x] for x in PURE + EAGER] + [["citer", "mon"], ["mon", "cs_await"], ["cs_ascoro", "citer"],
+                                           ["bmon", "ami", "coro_await"], ["masend", "ref", "cs_ascoro"]]
+    for b in bodies:
+        for layers in stacks:
+            eager = any(cm.is_eager(x) for x in layers)
+            for seq in seqs:
+                if eager and seq[0] != "s:0":
+                    continue
+                yield layers, b, seq, False
+                if eager and b[0][0] == "fut":
+                    yield layers, b, seq, True
+        for special, rest in (("cs_athrow:E1", []), ("cs_athrow:BE", ["citer"]), ("cs_aclose", []), ("cs_aclose", ["mon"])):
+            for seq in (["s:0"], ["s:0", "s:3"], ["s:0", "t:E2"], ["s:0", "c"]):
+                yield [special] + rest, b, (["s:0"] if special == "cs_aclose" else seq), False
+
+
 def exhaustive_small():
     """Every single-layer wrapper x a few fixed bodies x all drive sequences of length <= 3."""
     bodies = [
@@ -409,6 +445,14 @@ def run(ctx):
     loop = asyncio.new_event_loop()
     try:
         explore(ctx, corpus_cases(), loop, label="corpus: ")
+        grid = list(grid_cases())
+        explore(ctx, grid, loop, label="grid: ")
+        ctx.extra["deterministic_grid_cases"] = len(grid)
+        import random as _random
+        fixed = _random.Random(20250502)
+        asyncio.set_event_loop(loop)
+        loop_stream(ctx, fixed, loop, 60)
+        reawait(ctx, fixed, loop, 30)
         n = 120000 if ctx.thorough() else 5000
         batch = 3000
         first = True
